@@ -53,6 +53,10 @@ var vC03Stmts = []vC03Stmt{
 	{"select key where key + value = value + key & strlen(key) <= strlen(value)", "abc", 0, 2, nil},
 	{"select key, int(value) / strlen(value), int(value) * strlen(key) where key >= ''", "012", 1, 2, nil},
 	{"select key where !(value = key) and (value != 'a' or key != 'b')", "abc", 1, 1, nil},
+	// list() chooses between an integer and a float list by its first argument: rows of both kinds in one chunk
+	{"select key, list(value) where key >= ''", "1.5", 1, 2, nil},
+	{"select key, list(value, 2)[0], len(list(value)) where key >= ''", "1.5", 1, 2, nil},
+	{"select key where 2 in list(value, 2)", "1.5", 1, 2, nil},
 }
 
 func VN_C03(tier int) int { return len(vC03Stmts) }
